@@ -211,17 +211,23 @@ def extract_tree(spec):
         if not spec.get("drop"):
             graph = graph.with_arguments(*inputs.values())
         b = _build.Builder(graph)
-        # discovery + scopes exactly as build_main does, then compile
+        # the whole real build (discovery, scopes, compilation); the emission tree is read off the
+        # Builder afterwards, so the harness depends only on the attributes it reads
+        from spox._scope import ScopeError
+
+        res, real = None, None
         try:
-            b.discover(b.main)
-            b.graph_topo.reverse()
-            for g in b.graph_topo:
-                b.update_scope_tree(g)
-            b.resolve_scopes()
+            res = b.build_main()
+        except ScopeError:
+            real = ("err", "scope")
+        except KeyError:
+            real = ("err", "key")
         except (AttributeError, TypeError, NameError, ImportError):
             raise  # the Builder no longer looks as expected: reported as 'not observable' by the caller
         except Exception as e:  # noqa: BLE001
-            return None, ("pre-err", type(e).__name__)
+            real = ("other-err", type(e).__name__)
+        if b.main not in b.scope_own:
+            return None, ("pre-err", real[1] if real else "?")
         vid, nid = Ids(), Ids()
 
         def node_json(node):
@@ -264,19 +270,19 @@ def extract_tree(spec):
             return {"args": args, "nodes": nodes, "results": [vid(v) for v in b.results_of[g]]}
 
         tree = graph_json(b.main)
-        try:
-            from spox._scope import Scope
-
-            res = b.compile_graph(b.main, Scope())
-            graph._build_result.value = res
-            proto = graph.to_onnx(concrete=True)
-            real = ("ok", L.proto_to_named(proto))
-        except ScopeError:
-            real = ("err", "scope")
-        except KeyError:
-            real = ("err", "key")
-        except Exception as e:  # noqa: BLE001
-            real = ("other-err", type(e).__name__)
+        if res is not None:
+            try:
+                graph._build_result.value = res
+                proto = graph.to_onnx(concrete=True)
+                real = ("ok", L.proto_to_named(proto))
+            except ScopeError:
+                real = ("err", "scope")
+            except KeyError:
+                real = ("err", "key")
+            except (AttributeError, TypeError, NameError, ImportError):
+                raise
+            except Exception as e:  # noqa: BLE001
+                real = ("other-err", type(e).__name__)
     return tree, real
 
 
@@ -428,7 +434,8 @@ def observe_final_check(specs):
 
 
 HAND_SPECS = [
-    # known finding: the version converter's fresh name _v_4 in a Loop body and again in the main graph
+    # former finding (fixed by 6e356ff): the version converter's fresh name _v_4 in a Loop body and again in
+    # the main graph
     {"args": ["f"], "inputs": [["x", 0]],
      "stmts": [["loop", 1, [0], {"stmts": [["op", "rmax", 17, [3]], ["op", "identity", 19, [4]]], "outs": [5]}, 17],
                ["op", "rmax", 17, [1]]],
@@ -645,6 +652,9 @@ def run(ck: core.Check):
                     ck.broken("correspondence", "C02 naming model vs real Builder names",
                               f"spec={json.dumps(r['spec'])[:900]} model={json.dumps(o)[:700]} real={json.dumps(real)[:700]}")
         nst["mismatches"] = mism
+        if nst["cases"] and nst["skipped"] > 0.3 * nst["cases"]:
+            ck.broken("correspondence", "C02 naming mostly not observable",
+                      f"{nst['skipped']} of {nst['cases']} builds could not be taken apart (real Builder changed?)")
         ck.cov["naming"] = nst
 
     ck.cov["distribution"] = dist
